@@ -525,6 +525,10 @@ func (s *state) evalCall(node *ast.CallNode) {
 		}
 	}
 
+	// rendering {param} content blocks moved the current node: an error in the
+	// called template is reported at this {call}.
+	s.at(node)
+
 	callData.enter()
 	state := &state{
 		tmpl:       calledTmpl,
